@@ -372,6 +372,8 @@ pub struct ReqLog {
     pub status_sent: Option<rc::Status>,
     /// Did the exchange end with a completion?
     pub completed: Option<bool>,
+    /// The client's acknowledgement of the exchange's last packet arrived.
+    pub final_acked: bool,
     pub dangling_reported: Option<u16>,
     /// Further receipts the answer to the pending query listed in its TLV container (tag 23 / 08):
     /// a client may reverse them too (nothing demands it).
@@ -1506,6 +1508,7 @@ impl Terminal for PtConn {
                     status_sent: None,
                     completed: None,
                     dangling_reported: None,
+                    final_acked: false,
                     listed_reported: vec![],
                     abort_sent: None,
                     open_dangling_at_arrival: vec![],
@@ -1526,6 +1529,7 @@ impl Terminal for PtConn {
                         };
                         if rest.is_empty() {
                             self.st = St::Idle;
+                            self.pt.lock().unwrap().requests[req].final_acked = true;
                             if close_now {
                                 io.note(format!("terminal closes c{} after the exchange", self.conn));
                                 self.closed_idle = true;
@@ -1577,6 +1581,7 @@ impl Terminal for PtConn {
                     status_sent: None,
                     completed: None,
                     dangling_reported: None,
+                    final_acked: false,
                     listed_reported: vec![],
                     abort_sent: None,
                     open_dangling_at_arrival: vec![],
